@@ -41,6 +41,11 @@ BAD = {
     "extra": np.dtype([("time", np.int64), ("endtime", np.int64), ("id", np.int64), ("val", np.int64), ("x", np.int64)]),
     "missing": np.dtype([("time", np.int64), ("endtime", np.int64), ("id", np.int64)]),
     "narrow": np.dtype([("time", np.int64), ("endtime", np.int64), ("id", np.int64), ("val", np.int32)]),
+    # the declared fields and types, but another memory layout: val and id at each other's offsets
+    "swapped": np.dtype({"names": ["time", "endtime", "id", "val"], "formats": [np.int64] * 4, "offsets": [0, 8, 24, 16]}),
+    # ... and with padding (itemsize 40 instead of 32)
+    "padded": np.dtype({"names": ["time", "endtime", "id", "val"], "formats": [np.int64] * 4, "offsets": [0, 8, 16, 24],
+                        "itemsize": 40}),
 }
 TITLED = np.dtype([(("Start time", "time"), np.int64), (("End time", "endtime"), np.int64), (("Id", "id"), np.int64),
                    (("Value", "val"), np.int64)])
@@ -433,6 +438,9 @@ def _grid(tier):
             if proc == "single":
                 for var in ("extra", "narrow"):
                     g.append(dict(pkind=pk, vkind="dtype", variant=var, wrap="own", proc=proc))
+        for var in ("swapped", "padded"):
+            g.append(dict(pkind="ordinary", vkind="dtype", variant=var, wrap=False, proc=proc))
+            g.append(dict(pkind="ordinary", vkind="dtype", variant=var, wrap=True, proc=proc))
         g.append(dict(pkind="multi", vkind="nondict", proc=proc))
         g.append(dict(pkind="multi", vkind="sibling_label", proc=proc))
         g.append(dict(pkind="down", vkind="nonchunk", proc=proc))
